@@ -4,7 +4,12 @@ import json, os, sys, time, hashlib, subprocess
 VERIF = os.path.dirname(os.path.dirname(os.path.abspath(__file__)))
 REPO = os.environ.get("VERIF_REPO", "/repo")
 BUILD = os.path.join(VERIF, ".build")
-LOGS = os.path.join(BUILD, "logs")
+# everything a run writes (MIR dumps, SMT files, harness-crate copies, cargo target dirs, logs) lives in a directory of its own
+# per property, so that checks of different properties can run side by side without sharing mutable state
+PROP = os.environ.get("VERIF_PROP", "adhoc")
+WORK = os.path.join(BUILD, "work", PROP)
+LOGS = os.path.join(WORK, "logs")
+os.makedirs(LOGS, exist_ok=True)
 REPLAYS = os.path.join(VERIF, "replays")
 EVIDENCE = os.path.join(VERIF, "evidence")
 GUARD = "metrics_verif"
